@@ -382,6 +382,7 @@ func c09Run(tp *core.Tape, e *core.Env) {
 			o2.NoSettle = true
 			o2.HoldFirstReload = fileMode
 			s0 := sidecarsim.Start(o2)
+			sidecarsim.Settle() // whatever else the command has started gets to run while its reload is held
 			early := fileMode && s0.Serving()
 			if s0.LoadErr != nil {
 				e.Violate("start-fails", "fault=none,level=command", "the sidecar command does not start over the store of acknowledged A: %v", s0.LoadErr)
